@@ -113,7 +113,7 @@ func c15ErrorCases() map[string]interface{} {
 }
 
 func runC15(c *run.Ctx) {
-	n := c.Pick(4000, 150000)
+	n := c.Pick(4000, 600000)
 	for i := 0; i < n; i++ {
 		if !c.Mine(i) {
 			continue
@@ -183,7 +183,7 @@ func runC15(c *run.Ctx) {
 	// large uniform collections: one element (whose untagged nil-able parts may
 	// be nil) repeated up to and beyond typical fast-path sizes, as slice, array
 	// and map values
-	for i := 0; i < c.Pick(900, 20000); i++ {
+	for i := 0; i < c.Pick(900, 100000); i++ {
 		if !c.Mine(i) {
 			continue
 		}
